@@ -44,6 +44,9 @@ Inductive dstmt :=
 | DForIds (body : list dstmt)                         (* for <loop> in <the iterable of ids>: body *)
 | DForTail (body : list dstmt) | DForHead (body : list dstmt)   (* for <loop> in tail / head: body   (tail = list(members[0])) *)
 | DClear (t : table) | DClearAttr (t : table) | DClearNet
+| DBindNodeRef (k : vexp) (body : list dstmt)         (* x = self._node[k]  (a reference kept after `del self._node[k]`); body = the rest *)
+| DForLocalMinus (sd : side) (v : vexp) (body : list dstmt)   (* for <loop> in x[sd].difference({v}): body *)
+| DForLocalUnion (body : list dstmt)                  (* for <loop> in x["in"].union(x["out"]): body *)
 | DSetPair (k : vexp)                                 (* self._edge[k] = {"in": set(tail), "out": set(head)} *)
 | DAttrUpdateItem (t : table) (k : vexp).             (* self._T_attr[k].update(eattr), the item's own attribute dict *)
 
@@ -186,6 +189,26 @@ Fixpoint dexec (q : dstmt) (en : denv) (d : dhg) {struct q} : dhg * outcome :=
   | DClear t => (mkD (set_tab t (ts d) []) (set_tab t (hs d) []), Ok)
   | DClearAttr t => (mkD (set_atab t (ts d) []) (set_atab t (hs d) []), Ok)
   | DClearNet => (mkD (with_net (ts d) []) (with_net (hs d) []), Ok)
+  | DBindNodeRef k body =>
+      match get (dveval k en) (h_node (ts d)) with
+      | None => (d, Raised IDNotFound)
+      | Some outs => let en' := dwith_local en (getl (dveval k en) (h_node (hs d)), outs) in   (* ("in", "out") *)
+                     (fix go (l : list dstmt) (d : dhg) : dhg * outcome :=
+                        match l with [] => (d, Ok)
+                        | q :: r => match dexec q en' d with (d', Ok) => go r d' | y => y end end) body d
+      end
+  | DForLocalMinus sd v body => (fix it (xs : list lbl) (d : dhg) : dhg * outcome :=
+         match xs with [] => (d, Ok)
+         | x :: r => match (fix go (l : list dstmt) (d : dhg) : dhg * outcome :=
+                              match l with [] => (d, Ok)
+                              | q :: r' => match dexec q (dwith_loop en x) d with (d', Ok) => go r' d' | y => y end end) body d with
+                     | (d', Ok) => it r d' | y => y end end) (sremove (dveval v en) (match sd with SdIn => fst (de_local en) | SdOut => snd (de_local en) end)) d
+  | DForLocalUnion body => (fix it (xs : list lbl) (d : dhg) : dhg * outcome :=
+         match xs with [] => (d, Ok)
+         | x :: r => match (fix go (l : list dstmt) (d : dhg) : dhg * outcome :=
+                              match l with [] => (d, Ok)
+                              | q :: r' => match dexec q (dwith_loop en x) d with (d', Ok) => go r' d' | y => y end end) body d with
+                     | (d', Ok) => it r d' | y => y end end) (sunion (fst (de_local en)) (snd (de_local en))) d
   | DSetPair k => if is_none (dveval k en) then (d, Raised XGIError)
                   else (mkD (with_edge (ts d) (set (dveval k en) (mkset (dx_tail (de_x en))) (h_edge (ts d))))
                             (with_edge (hs d) (set (dveval k en) (mkset (dx_head (de_x en))) (h_edge (hs d)))), Ok)
@@ -246,3 +269,11 @@ Definition run_dbulk (table : list (bool * bool)) (k : nat) (gs : list (dbexp * 
            else run_dbulk_item gs body false a tl hd (LInt (h_uid (ts d))) ea' (both (fun s => with_uid s (h_uid s + 1)%Z) d)) items d.
 Definition run_ditems (gs : list (dbexp * guard_action)) (body : list dstmt) (items : list (lbl * (list lbl * list lbl))) (d : dhg) : dres :=
   dloop (fun d im => run_dbulk_item gs body true [] (fst (snd im)) (snd (snd im)) (fst im) [] d) items d.
+
+(* a loop over node ids whose item is: guards (a `warn(...); continue` guard ends the item with one warning), then the call of
+   another translated method on that id with the same options *)
+Definition run_dnode_items (gs : list (dbexp * guard_action)) (callee : list dstmt) (ns : list lbl) (flags : list bool) (d : dhg) : dres :=
+  dloop (fun d n => match run_dguards gs (mkDEnv [] flags DirInvalid [] [] n LNone SdIn SdOut ([], []) dext0) d with
+                    | Some r => r
+                    | None => run_dmethod callee [n] flags DirInvalid [] [] d
+                    end) ns d.
